@@ -117,7 +117,7 @@ impl Property for C02 {
     const ID: &'static str = "C02";
 
     fn families(_tier: Tier) -> u32 {
-        13
+        14
     }
 
     fn strategy(tier: Tier, family: u32) -> BoxedStrategy<Case> {
@@ -173,6 +173,63 @@ impl Property for C02 {
                     }
                 })
                 .boxed(),
+            // blocks / members that open with stored (incompressible) LZMA2 chunks which later data copies from
+            13 => (
+                proptest::collection::vec(
+                    (
+                        66_000u32..120_000,
+                        any::<u64>(),
+                        proptest::collection::vec((300u32..6000, 200u32..64_000), 1..4),
+                        500u32..8000,
+                    ),
+                    1..4,
+                ),
+                prop_oneof![xz(1 << 20), lz(1 << 20)],
+                prop_oneof![Just(0u8), Just(1u8), Just(2u8)],
+                plan_strategy(),
+                read_sizes_strategy(),
+            )
+                .prop_map(|(stretches, mut kind, cut, plan, sizes)| {
+                    let mut segs = Vec::new();
+                    let mut first = 0u64;
+                    for (i, (noise, seed, copies, text)) in stretches.iter().enumerate() {
+                        segs.push(Seg::Rand { len: *noise, seed: *seed });
+                        let mut n = *noise as u64;
+                        for (len, dist) in copies {
+                            segs.push(Seg::CopyBack { len: *len, dist: *dist });
+                            n += *len as u64;
+                        }
+                        segs.push(Seg::Text { len: *text, seed: *seed ^ 1 });
+                        n += *text as u64;
+                        if i == 0 {
+                            first = n;
+                        }
+                    }
+                    // unit boundary: none / right behind the first stretch (the next unit opens with noise) / inside it
+                    let unit = match cut {
+                        0 => None,
+                        1 => Some(first),
+                        _ => Some(first / 2),
+                    };
+                    match &mut kind {
+                        Kind::Xz(c) => {
+                            c.filters.clear();
+                            c.opts.dict_size = c.opts.dict_size.max(128 << 10);
+                            c.block = unit.map(|u| u.max(c.opts.dict_size as u64));
+                        }
+                        Kind::Lzip(c) => {
+                            c.opts.dict_size = c.opts.dict_size.max(128 << 10);
+                            c.member = unit.map(|u| u.max(c.opts.dict_size as u64));
+                        }
+                    }
+                    Case {
+                        data: Data { segs },
+                        kind,
+                        plan,
+                        sizes,
+                    }
+                })
+                .boxed(),
             10 => mk(
                 prop_oneof![Just(Data::default()), data_strategy(1, 3)].boxed(),
                 prop_oneof![xz(1 << 20), lz(1 << 20)].boxed(),
@@ -201,6 +258,7 @@ impl Property for C02 {
             ("lzip", 20.0),
             ("empty", 1.0),
             ("dict_not_representable", 5.0),
+            ("stored_then_copy", 3.0),
         ]
     }
 
@@ -219,6 +277,10 @@ impl Property for C02 {
         let data = case.data.expand();
         obs.class_if(data.is_empty(), "empty");
         obs.class_if(case.plan.is_multi(data.len()), "multiwrite");
+        obs.class_if(
+            matches!(case.data.segs.as_slice(), [Seg::Rand { len, .. }, Seg::CopyBack { .. }, ..] if *len >= 66_000),
+            "stored_then_copy",
+        );
         let cap = data.len() + (1 << 20);
         match &case.kind {
             Kind::Xz(cfg) => {
